@@ -37,17 +37,15 @@ class NortenElement:
 
     @property
     def Y(self) -> complex:
-        try:
-            return 1/self.Z
-        except ZeroDivisionError:
+        if self.Z == 0: # numpy scalars do not raise ZeroDivisionError
             return np.inf
+        return 1/self.Z
 
     @property
     def I(self) -> complex:
-        try:
-            return complex(self.V)/self.Z
-        except ZeroDivisionError:
+        if self.Z == 0:
             return np.nan
+        return complex(self.V)/self.Z
 
 @dataclass(frozen=True)
 class TheveninElement:
@@ -58,17 +56,15 @@ class TheveninElement:
 
     @property
     def Z(self) -> complex:
-        try:
-            return 1/self.Y
-        except ZeroDivisionError:
+        if self.Y == 0: # numpy scalars do not raise ZeroDivisionError
             return np.inf
+        return 1/self.Y
 
     @property
     def V(self) -> complex:
-        try:
-            return complex(self.I)/self.Y
-        except ZeroDivisionError:
+        if self.Y == 0:
             return np.nan
+        return complex(self.I)/self.Y
 
 def impedance(name : str, Z : complex) -> NortenTheveninElement:
     return NortenElement(Z=Z, V=0, name=name, type='impedance')
